@@ -73,6 +73,9 @@ RULE = ("op split / class_split: random ITS graphs = (a) fgutils.parse of genera
         "and split_its resp. split_its(get_its(..)) on the derived objects is compared with the model on the derived contents "
         "(its_split_hist also runs its_checkb on the intermediate ITS); every call is checked to leave nodes, adjacency, all "
         "attribute dicts and the graph-level dict of its arguments unchanged; "
+        "op resup also on ITS graphs that are OUTPUTS of get_its on graphs whose ids differ from the map numbers (ids re-assigned "
+        "independently, or RDKit ids via ITS.from_smiles), so that every node carries an idx_map pointing at foreign ids which the "
+        "halves of split_its inherit, and on ITS graphs with stale / arbitrary hand-set idx_map attributes; "
         "op resup: ITS graphs named by positive map numbers in any order, get_its(*split_its(its)) computed by the implementation; "
         "op its_split: fully mapped reactions (same atoms both sides, ids = map numbers, independent insertion orders), "
         "split_its(get_its(G,H)) computed by the implementation. non-trivial = at least one tuple/list label with differing "
@@ -439,7 +442,49 @@ def gen_split(rng):
     return {"op": rng.choice(["split", "split", "split", "class_split"]), "its": g, "src": "random/" + scheme}
 
 
+def stale_idx_maps(rng, g):
+    """idx_map attributes set by hand: other nodes' ids, swapped / equal / out-of-graph ids, on some or all nodes"""
+    ns = list(g.nodes)
+    how = rng.choice(["other_nodes", "constant", "outside", "mixed"])
+    for n in ns:
+        if rng.random() < 0.8:
+            if how == "other_nodes":
+                im = (rng.choice(ns), rng.choice(ns))
+            elif how == "constant":
+                im = (ns[0], ns[-1])
+            elif how == "outside":
+                im = (rng.randint(100, 120), rng.randint(-20, -1))
+            else:
+                im = (rng.choice(ns + [0, 77]), rng.choice(ns + [0, 77]))
+            g.nodes[n]["idx_map"] = im
+    return g
+
+
+def gen_resup_from_get_its(rng):
+    """An ITS that is itself an OUTPUT of get_its on graphs whose node ids differ from the map numbers (ids re-assigned
+    independently on both sides, or supplied by RDKit): every node carries idx_map = (id in G, id in H), which the
+    halves returned by split_its inherit."""
+    if rng.random() < 0.3:
+        try:
+            c = make_smiles_case(rng, full=rng.random() < 0.7)
+            return {"op": "resup", "its": ITS.from_smiles(c["smiles"]).graph, "src": "resup/from_smiles"}
+        except Exception:
+            pass
+    for _ in range(10):
+        c = make_reaction(rng, rng.choice(["identity", "shuffled", "partial", "onesided", "mixed"]))
+        its = get_its(gens.copy_exact(c["G"]), gens.copy_exact(c["H"]))
+        if its.number_of_nodes() >= 1 and all(n > 0 for n in its.nodes):
+            break
+    if rng.random() < 0.3:
+        its, _, _ = gens.reid(rng, its, "shuffled")      # another insertion order; ids restored to the map numbers below
+        its = nx.relabel_nodes(its, {n: d["aam"] for n, d in its.nodes(data=True)}, copy=True)
+    return {"op": "resup", "its": its, "src": "resup/get_its_output"}
+
+
 def gen_resup(rng):
+    r = rng.random()
+    if r < 0.3:
+        return gen_resup_from_get_its(rng)
     r = rng.random()
     if r < 0.3:
         for _ in range(20):
@@ -460,6 +505,8 @@ def gen_resup(rng):
     ids, scheme = positive_ids(rng, g.number_of_nodes())
     m = dict(zip(list(g.nodes), ids))
     its = rebuild(rng, g, m, shuffle=scheme != "from1" or rng.random() < 0.5)
+    if rng.random() < 0.3:
+        return {"op": "resup", "its": stale_idx_maps(rng, its), "src": "resup/stale_idx_map"}
     return {"op": "resup", "its": its, "src": "resup/" + scheme}
 
 
@@ -736,6 +783,8 @@ def classes(c, out):
         yield "derivedG=" + c["derivG"]["how"]
         yield "derivedH=" + c["derivH"]["how"]
     yield "src=" + c["src"]
+    if "its" in c and any("idx_map" in d and tuple(d["idx_map"]) != (n, n) for n, d in c["its"].nodes(data=True)):
+        yield "its_nodes_carry_foreign_idx_map"
     yield "result=" + out[0]
     if "its" in c:
         kinds = set()
